@@ -216,6 +216,26 @@ func main() {
 		o.Set("lsm.batchSplit", "lsm/lsm.go:SetBatch", val, ok, "split")
 	}
 	{
+		// lsm.flushWorkers: recovery drops every WAL segment at or below the manifest log pointer
+		// without replaying it, which is only sound when flushes are installed in segment order:
+		// exactly one flush worker (the literal argument of the only startFlushWorkers call in NewLSM)
+		fd := ll.Func("NewLSM")
+		val, n := "", 0
+		if fd != nil {
+			ast.Inspect(fd.Body, func(x ast.Node) bool {
+				c, isCall := x.(*ast.CallExpr)
+				if isCall && ll.Src(c.Fun) == "lsm.startFlushWorkers" && len(c.Args) == 1 {
+					n++
+					if lit, isLit := c.Args[0].(*ast.BasicLit); isLit {
+						val = lit.Value
+					}
+				}
+				return true
+			})
+		}
+		o.Set("lsm.flushWorkers", "lsm/lsm.go:NewLSM", val, fd != nil && n == 1 && val != "", "1")
+	}
+	{
 		// oracle.seed, part 1: LSM.MaxVersion covers memtable, immutables, levels
 		fd := ll.Func("LSM.MaxVersion")
 		src := ll.Src(body(fd))
